@@ -294,6 +294,17 @@ func checkXslices(s []int) {
 					fail("xslices/Insert", "Insert(%v (cap +%d), %d, %v) = %v (panic %v)", s, extra, idx, vals, got, pp)
 				}
 			}
+			// the inserted values alias the slice itself (any sub-slice of it)
+			for a := 0; a <= n; a++ {
+				for b := a; b <= n && b-a <= 2; b++ {
+					c := withCap(s, extra)
+					want := append(append(clone(s[:idx]), s[a:b]...), s[idx:]...)
+					var got []int
+					if pp := try(func() { got = xslices.Insert(c, idx, c[a:b]...) }); pp != nil || !eq(got, want) {
+						fail("xslices/Insert", "Insert(s=%v (cap +%d), %d, s[%d:%d]...) = %v (panic %v), want %v", s, extra, idx, a, b, got, pp, want)
+					}
+				}
+			}
 			for cnt := 0; idx+cnt <= n; cnt++ {
 				want := append(clone(s[:idx]), s[idx+cnt:]...)
 				c := withCap(s, extra)
@@ -540,6 +551,17 @@ func checkXmaps() {
 				if got := mask(xmaps.Intersection(c, a, b)); got != ma&mb&mc {
 					fail("xmaps/Intersection", "Intersection(%v,%v,%v) = %b", c, a, b, got)
 				}
+				// pure: neither the sets nor the caller's slice of sets are changed
+				sets := []xmaps.Set[int]{c, a, b}
+				lens := []int{len(c), len(a), len(b)}
+				_ = xmaps.Intersection(sets...)
+				_ = xmaps.Union(sets...)
+				_ = xmaps.Intersects(sets...)
+				for i, x := range []xmaps.Set[int]{c, a, b} {
+					if len(sets[i]) != lens[i] || mask(sets[i]) != mask(x) {
+						fail("xmaps/argument-changed", "after Intersection/Union/Intersects(sets...) the caller's slice holds %v at position %d, it held %v", sets[i], i, x)
+					}
+				}
 				if got := xmaps.Intersects(a, c, b); got != (ma&mb&mc != 0) {
 					fail("xmaps/Intersects", "Intersects(%v,%v,%v) = %v", a, c, b, got)
 				}
@@ -740,6 +762,10 @@ func checkXerrors() {
 			var next []error
 			for _, e := range level {
 				next = append(next, fmt.Errorf("wrap: %w", e), xerrors.WithStack(e))
+				if d < 2 {
+					// trees of errors: the chain continues through Unwrap() []error
+					next = append(next, errors.Join(errors.New("sibling"), e), fmt.Errorf("%w and then %w", errors.New("first"), e))
+				}
 			}
 			chains = append(chains, level...)
 			level = next
@@ -758,11 +784,21 @@ func checkXerrors() {
 		if !sameErr(errors.Unwrap(w2), errors.Unwrap(w)) || len(w2.Error()) != len(w.Error()) {
 			fail("xerrors/WithStack-not-idempotent", "WithStack(WithStack(%q)) wrapped a second time", e)
 		}
-		hasStack := func(x error) bool {
+		var hasStack func(x error) bool
+		hasStack = func(x error) bool {
 			type unw interface{ Unwrap() error }
+			type unwMulti interface{ Unwrap() []error }
 			for x != nil {
 				if fmt.Sprintf("%T", x) == "xerrors.withStack" {
 					return true
+				}
+				if m, ok := x.(unwMulti); ok {
+					for _, c := range m.Unwrap() {
+						if hasStack(c) {
+							return true
+						}
+					}
+					return false
 				}
 				u, ok := x.(unw)
 				if !ok {
@@ -786,6 +822,13 @@ func checkXerrors() {
 			pb := try(func() { b = errors.Is(e, t) })
 			if (pa != nil) != (pb != nil) || a != b {
 				fail("xerrors/WithStack-Is", "errors.Is(WithStack(e), %T) = %v but errors.Is(e, target) = %v for e = %q", t, a, b, e)
+			}
+		}
+		// a stack-carrying error is not "the same error" as another stack-carrying error
+		for _, other := range []error{xerrors.WithStack(errors.New("unrelated")), xerrors.WithStack(isErr{"unrelated"})} {
+			var a bool
+			if pa := try(func() { a = errors.Is(w, other) }); pa == nil && a && !errors.Is(e, other) {
+				fail("xerrors/WithStack-Is", "errors.Is(WithStack(e), WithStack(unrelated)) is true for e = %q", e)
 			}
 		}
 		var target isErr
